@@ -1060,3 +1060,163 @@ pub fn drop_after_write_scenario(ch: &mut Chooser, _thorough: bool) -> Exec {
     }
     Exec { outcome: Digest::of64(&obs), violation, features: vec![] }
 }
+
+/// C06, request / reply with the replying side gone at once: the connector writes a request
+/// of `q` bytes and then reads to end-of-file; the acceptor reads the request, writes a reply
+/// of `n` bytes and drops its stream immediately (the reply is still queued, partly or wholly,
+/// so the socket lingers without an owner until it is delivered). Fixed latency, no loss, the
+/// round trip below the retransmit budget -- but possibly above the retransmit threshold, so
+/// the request is retransmitted although it has arrived, and the duplicate reaches the
+/// lingering socket. The connector must get the whole reply and then EOF, without an error.
+pub fn reply_then_drop_scenario(ch: &mut Chooser, _thorough: bool) -> Exec {
+    let lat: u32 = 1 + ch.choose("one_way_latency_rounds_minus_1", 4) as u32;
+    let thr: u32 = *ch.of("retx_threshold", &[1u32, 2, 3]);
+    let max: u32 = 8;
+    let caps = *ch.of("send_recv_caps", &[(64usize, 8usize), (8, 64), (4, 4), (512, 512)]);
+    let mtu = *ch.of("mtu", &[42u32, 1500]);
+    let q: usize = *ch.of("request_bytes", &[1usize, 6]);
+    let n: usize = *ch.of("reply_bytes", &[1usize, 12, 100]);
+    // the acceptor waits this many rounds between reading the request and writing the reply
+    let think: u32 = *ch.of("rounds_before_the_reply", &[0u32, 2]);
+    if 2 * lat + 2 >= thr * (max + 1) {
+        return Exec { outcome: 0, violation: None, features: vec!["skipped-round-trip-beyond-budget"] };
+    }
+    let kc = KernelConfig::default().mtu(mtu).send_buf_cap(caps.0).recv_buf_cap(caps.1).retx_threshold(thr).retx_max(max);
+    let mut net = Net::with_config(kc);
+    let (cip, sip): (IpAddr, IpAddr) = ("10.0.0.1".parse().unwrap(), "10.0.0.2".parse().unwrap());
+    let c = net.add_host(cip);
+    let s = net.add_host(sip);
+    let hosts = [c, s];
+    let guard = net.enter();
+    let round: Rc<RefCell<u32>> = Rc::new(RefCell::new(0));
+    #[derive(Default)]
+    struct Log {
+        read: Vec<u8>,
+        eof: bool,
+        err: Vec<String>,
+        done: [bool; 2],
+    }
+    let log: Rc<RefCell<Log>> = Rc::new(RefCell::new(Log::default()));
+    let mut exec = Executor::new();
+    {
+        let (log, round) = (log.clone(), round.clone());
+        exec.spawn(1, async move {
+            let Ok(l) = TcpListener::bind(SocketAddr::new(sip, 80)).await else { return };
+            let Ok((mut st, _)) = l.accept().await else { return };
+            let mut got = 0usize;
+            let mut buf = [0u8; 16];
+            while got < q {
+                match st.read(&mut buf[..(q - got).min(16)]).await {
+                    Ok(0) => {
+                        log.borrow_mut().err.push("acceptor: end-of-file inside the request".into());
+                        return;
+                    }
+                    Ok(k) => got += k,
+                    Err(e) => {
+                        log.borrow_mut().err.push(format!("acceptor: read: {}", errk(&e)));
+                        return;
+                    }
+                }
+            }
+            let until = *round.borrow() + think;
+            std::future::poll_fn(|cx| {
+                if *round.borrow() >= until {
+                    std::task::Poll::Ready(())
+                } else {
+                    cx.waker().wake_by_ref();
+                    std::task::Poll::Pending
+                }
+            })
+            .await;
+            let data: Vec<u8> = (0..n).map(|i| (i % 200) as u8 + 1).collect();
+            if let Err(e) = st.write_all(&data).await {
+                log.borrow_mut().err.push(format!("acceptor: write: {}", errk(&e)));
+            }
+            drop(st);
+            log.borrow_mut().done[1] = true;
+            std::future::pending::<()>().await;
+            drop(l);
+        });
+    }
+    {
+        let log = log.clone();
+        exec.spawn(0, async move {
+            let mut st = match TcpStream::connect(SocketAddr::new(sip, 80)).await {
+                Ok(s) => s,
+                Err(e) => {
+                    log.borrow_mut().err.push(format!("connect: {}", errk(&e)));
+                    return;
+                }
+            };
+            let req: Vec<u8> = (0..q).map(|i| 0xA0 + i as u8).collect();
+            if let Err(e) = st.write_all(&req).await {
+                log.borrow_mut().err.push(format!("connector: write: {}", errk(&e)));
+            }
+            let mut buf = [0u8; 32];
+            loop {
+                match st.read(&mut buf).await {
+                    Ok(0) => {
+                        log.borrow_mut().eof = true;
+                        break;
+                    }
+                    Ok(k) => log.borrow_mut().read.extend_from_slice(&buf[..k]),
+                    Err(e) => {
+                        log.borrow_mut().err.push(format!("connector: read: {}", errk(&e)));
+                        break;
+                    }
+                }
+            }
+            drop(st);
+            log.borrow_mut().done[0] = true;
+        });
+    }
+    let mut wire: VecDeque<(u32, turmoil_net::Packet)> = VecDeque::new();
+    let horizon = 400u32;
+    let mut finished_at: Option<u32> = None;
+    for r in 0..horizon {
+        *round.borrow_mut() = r;
+        while wire.front().map(|(t, _)| *t <= r).unwrap_or(false) {
+            let (_, p) = wire.pop_front().unwrap();
+            guard.deliver(p);
+        }
+        exec.run_until_stalled(4000, |tag| turmoil_net::set_current(hosts[tag as usize]));
+        let mut out = vec![];
+        guard.egress_all(&mut out);
+        for p in out {
+            wire.push_back((r + lat, p));
+        }
+        let l = log.borrow();
+        if l.done[0] && l.done[1] && wire.is_empty() {
+            finished_at = Some(r);
+            break;
+        }
+        if !l.err.is_empty() {
+            break;
+        }
+    }
+    let l = log.borrow();
+    let want: Vec<u8> = (0..n).map(|i| (i % 200) as u8 + 1).collect();
+    let what = format!(
+        "request of {q} bytes, reply of {n} bytes written {think} rounds after the request was read, replying stream dropped at once (latency {lat}, retx_threshold {thr}, retx_max {max}, caps {caps:?}, mtu {mtu}; no packet lost, round trip {} rounds < budget {})",
+        2 * lat,
+        thr * (max + 1)
+    );
+    let mut violation: Option<Violation> = None;
+    if !l.err.is_empty() {
+        violation = Some(Violation::new("aborted", format!("{what}: {:?} after {} of {n} reply bytes", l.err, l.read.len())));
+    } else if l.read.len() > want.len() || l.read[..] != want[..l.read.len()] {
+        violation = Some(Violation::new("prefix", format!("{what}: the connector read {:?}", l.read)));
+    } else if l.read != want || !l.eof {
+        violation = Some(Violation::new("stall", format!("{what}: after {horizon} rounds the connector has {} of {n} reply bytes, EOF seen: {}", l.read.len(), l.eof)));
+    }
+    drop(l);
+    drop(exec);
+    drop(guard);
+    let obs = format!("lat={lat} thr={thr} caps={caps:?} mtu={mtu} q={q} n={n} think={think} finished_at={finished_at:?}");
+    if let Some(v) = violation.as_mut() {
+        v.sig = format!("reply-then-drop|{}", v.clause);
+        v.scenario = format!("c06-reply-then-drop {obs}");
+        v.actions = vec![obs.clone()];
+    }
+    Exec { outcome: Digest::of64(&obs), violation, features: vec![] }
+}
